@@ -152,6 +152,8 @@ type VC struct {
 	localCells [][2]string    // (component, ref) of the local variables' own cells
 	localTypes map[string]types.Type // every source-level local of the function under verification (from DebugRefs)
 	matchedSites map[*CallSiteSpec]bool // `at call` clauses that applied to some call (vacuity guard)
+	dynCallee     *Val  // function value of the call being translated (calls through function-valued fields)
+	fnIDs         map[string]int
 	replayParams  []Val  // entry values of the parameters (receiver first), for counterexample replay
 	replayResults []Val  // results merged over all returns
 	replayExit    *State // merged exit state (post-heap of slice parameters)
@@ -1129,8 +1131,23 @@ func (vc *VC) allocObj(st *State, t types.Type, label string) Val {
 }
 
 // typeTag returns a distinct integer for a concrete dynamic type.
+var aliasRe3 = regexp.MustCompile(`\b(any|byte|rune)\b`)
+
+// canonTypeString spells the predeclared aliases out (any, byte, rune), so that identical types get one name.
+func canonTypeString(s string) string {
+	return aliasRe3.ReplaceAllStringFunc(s, func(m string) string {
+		switch m {
+		case "any":
+			return "interface{}"
+		case "byte":
+			return "uint8"
+		}
+		return "int32"
+	})
+}
+
 func (vc *VC) typeTag(t types.Type) int {
-	k := types.TypeString(t, nil)
+	k := canonTypeString(types.TypeString(t, nil))
 	if n, ok := vc.typeTags[k]; ok {
 		return n
 	}
@@ -1141,7 +1158,7 @@ func (vc *VC) typeTag(t types.Type) int {
 
 func (vc *VC) boxFns(t types.Type) (box, unbox string) {
 	s := vc.sortOf(t)
-	key := sanitize(types.TypeString(t, func(p *types.Package) string { return p.Name() }))
+	key := sanitize(canonTypeString(types.TypeString(t, func(p *types.Package) string { return p.Name() })))
 	box, unbox = "box_"+key, "unbox_"+key
 	if !vc.declared[box] {
 		vc.declared[box] = true
